@@ -59,8 +59,24 @@ pub fn gen(a: &Args) -> i32 {
                 vctr += 1;
                 let tag = hex(format!("v{vctr}").as_bytes());
                 if r.chance(1, 3) {
-                    writeln!(out, "txnbig {k}=Z{}.{tag}", memkb * 2048).unwrap();
-                    st.bump("op_txn_oversize");
+                    if r.chance(1, 2) {
+                        writeln!(out, "txnbig {k}=Z{}.{tag}", memkb * 2048).unwrap();
+                        st.bump("op_txn_oversize");
+                    } else {
+                        // one value exactly at the admission limit of an empty memtable (must go through) or 1-3 bytes
+                        // beyond it (must be refused before it reaches the commit log)
+                        let (_, max_node, empty) = surrealkv::verif::memtable::node_sizes();
+                        let key = KEYS[r.below(nk as u64) as usize];
+                        let l_max = memkb as usize * 1024 - empty - max_node - 7 - key.len() - 2; // 2: inline-value header
+                        let d = r.below(4) as usize;
+                        if d == 0 {
+                            writeln!(out, "txn {}=Z{}.{tag}", hex(key), l_max - r.below(2) as usize).unwrap();
+                            st.bump("op_txn_exactly_at_the_limit");
+                        } else {
+                            writeln!(out, "txnbig {}=Z{}.{tag}", hex(key), l_max + d).unwrap();
+                            st.bump("op_txn_just_beyond_the_limit");
+                        }
+                    }
                 } else if r.chance(1, 2) {
                     // as many 100-byte entries as the admission check lets through, or a few fewer: whether they fit
                     // the arena of an ordinary memtable depends on the tower heights drawn for their nodes
@@ -68,7 +84,8 @@ pub fn gen(a: &Args) -> i32 {
                     let data = 4 + 100 + 2 + 7; // key, value, inline-value header, alignment slack
                     let cap = memkb as usize * 1024;
                     let m_max = (cap - empty - (max_node + data)) / (min_node + data) + 1;
-                    let m = m_max - r.below(5) as usize;
+                    // up to 3 more than that must be refused
+                    let m = m_max + 3 - r.below(8) as usize;
                     let mut ws = vec![];
                     for j in 0..m {
                         vctr += 1;
@@ -76,8 +93,13 @@ pub fn gen(a: &Args) -> i32 {
                         val.resize(100, b'y');
                         ws.push(format!("{}={}", hex(format!("k{j:03}").as_bytes()), hex(&val)));
                     }
-                    writeln!(out, "txn {}", ws.join(" ")).unwrap();
-                    st.bump("op_txn_many_entries_at_the_limit");
+                    if m > m_max {
+                        writeln!(out, "txnbig {}", ws.join(" ")).unwrap();
+                        st.bump("op_txn_many_entries_beyond_the_limit");
+                    } else {
+                        writeln!(out, "txn {}", ws.join(" ")).unwrap();
+                        st.bump("op_txn_many_entries_at_the_limit");
+                    }
                 } else {
                     let parts = r.range(1, 5);
                     let total = memkb * 1024 * r.range(80, 93) / 100;
